@@ -735,14 +735,31 @@ fn default_decl(input: &str) -> IResult<&str, model::DeclarationAttDefault<'_>> 
 fn char_ref(input: &str) -> IResult<&str, model::Reference<'_>> {
     alt((
         map(
-            delimited(tag("&#"), digit1, tag(";")),
+            delimited(
+                tag("&#"),
+                verify(digit1, |v: &str| legal_character(v, 10)),
+                tag(";"),
+            ),
             model::Reference::digit,
         ),
         map(
-            delimited(tag("&#x"), hex_digit1, tag(";")),
+            delimited(
+                tag("&#x"),
+                verify(hex_digit1, |v: &str| legal_character(v, 16)),
+                tag(";"),
+            ),
             model::Reference::hex,
         ),
     ))(input)
+}
+
+/// WFC: Legal Character
+fn legal_character(num: &str, radix: u32) -> bool {
+    u32::from_str_radix(num, radix)
+        .ok()
+        .and_then(char::from_u32)
+        .map(xmlchar::is_char)
+        .unwrap_or(false)
 }
 
 /// EntityRef | CharRef
